@@ -33,7 +33,7 @@ STUBBED = ["operating-system files -> simkit.simfs.SimFS/SimFile (path -> bytes)
 NOT_INJECTED = [
     "crash with lost un-flushed bytes, torn writes, flipped stored bytes: neither PennyLane nor HDF5 promises crash consistency",
     "two handles open on one path at the same time: HDF5 forbids it for writers; the generator keeps one handle per path",
-    "qchem Molecule attributes (need basis-set data files); unicode numpy arrays (h5py has no conversion path)",
+    "unicode numpy arrays (h5py has no conversion path)",
 ]
 ASSUMPTIONS = [
     "documented type relaxations, listed here and not discovered at run time: Python int/float/complex/bool read back as the numpy scalar of the same kind and value; list reads back as a list-like DatasetList; dict as a mapping DatasetDict; operators are compared with qp.equal; sparse matrices by format, shape, dtype and entries",
@@ -131,6 +131,12 @@ def gen_value(w, depth=0):
             base = qgen.gen_ops(w, 2, 1, wires=[0, 1])[0]
             return ["op", w.choice([["adjoint", base], ["pow", base, 2], ["ctrl", base, [2], None]])]
         return ["obs", qgen.gen_obs(w, [0, 1, 2], allow_hermitian=w.random() < 0.5)]
+    if r < 0.895:
+        # a molecule (basis-set data ships with the package): geometry jittered, charge / multiplicity consistent
+        sym, charge, mult = w.choice([(["H", "H"], 0, 1), (["He", "H"], 1, 1), (["H", "H", "H"], 1, 1), (["H"], 0, 2),
+                                      (["Li", "H"], 0, 1)])
+        coords = [[round(1.3 * i + w.uniform(-0.2, 0.2), 4), round(w.uniform(-0.3, 0.3), 4), 0.0] for i in range(len(sym))]
+        return ["molecule", sym, coords, charge, mult, w.choice(["sto-3g", "sto-3g", "6-31g"])]
     if r < 0.94:
         return ["sparse", w.choice(["csr", "csc", "coo"]), w.randint(1, 4), w.randint(1, 4),
                 w.getrandbits(24), w.choice(["float64", "complex128", "int64"])]
@@ -188,6 +194,9 @@ def build_value(spec):
         if dtype == "complex128":
             dense = dense * (1 + 0.5j)
         return {"csr": sp.csr_matrix, "csc": sp.csc_matrix, "coo": sp.coo_matrix}[fmt](dense)
+    if k == "molecule":
+        return qp.qchem.Molecule(list(spec[1]), np.array(spec[2], dtype=float), charge=spec[3], mult=spec[4],
+                                 basis_name=spec[5])
     if k == "dataset":
         return _ENV["Dataset"](**{n: build_value(v) for n, v in spec[1].items()})
     raise ValueError(k)
@@ -229,6 +238,22 @@ def eqv(exp, got, path="$"):
         return None
     if exp is None:
         return None if got is None else f"{path}: expected None, got {got!r}"
+    if isinstance(exp, qp.qchem.Molecule):
+        if not isinstance(got, qp.qchem.Molecule):
+            return f"{path}: expected Molecule, got {type(got).__name__}"
+        for field in ("symbols", "charge", "mult", "basis_name", "n_electrons", "n_orbitals"):
+            a, b = getattr(exp, field), getattr(got, field)
+            if (list(a) != list(b)) if field == "symbols" else (a != b):
+                return f"{path}.{field}: {b!r} != {a!r}"
+        for field in ("coordinates", "l", "alpha", "coeff", "nuclear_charges"):
+            a, b = getattr(exp, field), getattr(got, field)
+            try:
+                same_arr = len(a) == len(b) and all(np.array_equal(np.asarray(x), np.asarray(y)) for x, y in zip(a, b))
+            except TypeError:
+                same_arr = np.array_equal(np.asarray(a), np.asarray(b))
+            if not same_arr:
+                return f"{path}.{field}: values differ"
+        return None
     if isinstance(exp, qp.numpy.tensor):
         if not isinstance(got, qp.numpy.tensor):
             return f"{path}: expected pennylane tensor, got {type(got).__name__}"
